@@ -134,7 +134,7 @@ func MonC05() *Mon {
 			// ledger sync, or a fresh instance) nothing it remembers may shorten the first timer; checked when
 			// the call did nothing but initialise (no cached traffic acted upon)
 			if n.Active() && d.ViewNumber == 0 && !d.BlockSent() && n.Broadcasts() == bcAt[n] && h > 0 && !visited[n][h-1] && n.Timer.Resets > c.PreTimer.Resets {
-				want := w.Cfg.TimePerBlock
+				want, _ := n.BlockTimes() // the tip has not moved since the call started: the pair the library has just read
 				if !d.IsPrimary() {
 					want *= 2
 				}
